@@ -125,6 +125,11 @@ def mon_C05(run, cfg, seed):
 # ---------------------------------------------------------------------------------------------
 def mon_C09(run, cfg, seed):
     out, checks = [], 0
+    for mm in getattr(run, "session_parse_mismatch", []):
+        checks += 1
+        out.append(viol("C09", "C09/session-parameter-not-as-configured:" + mm["key"],
+                        "session parameters are the configured ones (placement / execution switches, caps, high-frequency submission rate, length)",
+                        mm, cfg, seed))
     log = after_setup(run)
     ses = None
     step_consults = {}
